@@ -97,7 +97,7 @@ def check_text(text, acc, parse_expression, perr, expected=None, kind='chain'):
         acc.violation('rejected-wellformed', f'{text!r}: {real.error} col {real.column_number}; reference tree {json.dumps(ref)[:300]}', {'text': text})
     elif real_ok and not ref_ok:
         acc.violation('accepted-illformed', f'{text!r}: real tree {json.dumps(real)[:300]}; reference: {ref}', {'text': text})
-    if kind in ('random', 'soup') and '\n' not in text and '\r' not in text and text.strip() and len(text) % 3 == 0:
+    if kind in ('random', 'soup', 'replay-context') and '\n' not in text and '\r' not in text and text.strip() and (len(text) % 3 == 0 or kind == 'replay-context'):
         statement_contexts(text, ref, ref_ok, acc)
     if len(acc.samples) < 3 and kind != 'chain' and ref_ok and real_ok and nops(text) >= 3:
         acc.sample({'text': text, 'tree': real})
@@ -333,4 +333,4 @@ def state_check(texts, acc, parse_expression, perr, seed):
 
 def replay(spec, acc):
     parse_expression, perr = _api()
-    check_text(spec['case']['text'], acc, parse_expression, perr, kind='replay')
+    check_text(spec['case']['text'], acc, parse_expression, perr, kind='replay-context' if spec['case'].get('context') else 'replay')
